@@ -285,7 +285,7 @@ def replay_strategy(inp):
 
 def _ladder_routine(job):
     from ..ladder import pairs
-    for tol in (0.8, 1.4, 2.0, 3.0, 5.0):
+    for tol in (0.5, 0.8, 1.4, 2.0, 3.0, 5.0):
         for target in (4.5, 7.0):
             for t, b in pairs():
                 d = dict(tr=t[0], tg=t[1], tb=t[2], br=b[0], bg=b[1], bb=b[2], tol=tol, target=target, minc=target)
